@@ -1,6 +1,7 @@
 import Proofs.Lemmas.Shuffle
 import Proofs.Lemmas.ShuffleList
 import Proofs.Lemmas.ShufflePerm
+import Proofs.Lemmas.Sha256Size
 /-!
 # C06 — list shuffling is the spec's swap-or-not permutation and is invertible
 
@@ -209,6 +210,20 @@ theorem unshuffleList_perm {α : Type} (h : Hasher) (rounds : Nat) (a : Array α
   obtain ⟨s, g⟩ := unshuffleList_spec h rounds a hn
   exact perm_of_index_bijection a _ (permUp h a.size rounds) (permDown h a.size rounds) s
     (permUp_lt hn rounds) (permDown_lt hn rounds) (permDown_permUp hn rounds) (permUp_permDown hn rounds) g
+
+/-! ## the concrete hash: SHA-256 (the `hH` hypothesis discharged by `sha256_size`) -/
+
+theorem permuteIndex_eq_spec_sha256 (seed : ByteArray) {rounds x n : Nat} (hr : rounds ≤ 255) (hx : x < n) (hn : n ≤ 2 ^ 40) :
+    ∃ v, Spec.computeShuffledIndex Zrnt.Sha256.hash rounds x n seed = some v ∧
+      permuteIndex (Hasher.ofHash Zrnt.Sha256.hash seed) rounds x n = .ok v :=
+  permuteIndex_eq_spec _ sha256_size seed hr hx hn
+
+theorem lists_eq_spec_sha256 {α : Type} (seed : ByteArray) {rounds : Nat} (hr : rounds ≤ 255) (a : Array α)
+    (hn : a.size ≤ 2 ^ 40) :
+    ∀ k, k < a.size → ∃ v, Spec.computeShuffledIndex Zrnt.Sha256.hash rounds k a.size seed = some v ∧ v < a.size ∧
+      (unshuffleList (Hasher.ofHash Zrnt.Sha256.hash seed) rounds a)[k]? = a[v]? ∧
+      (shuffleList (Hasher.ofHash Zrnt.Sha256.hash seed) rounds a)[v]? = a[k]? :=
+  lists_eq_spec _ sha256_size seed hr a hn
 
 /-! ## non-vacuity: the hypotheses are satisfiable and the statements have content at `n = 257`
 (one element beyond a 256-block), with the pivot at either end -/
